@@ -248,3 +248,91 @@ Proof.
         rewrite Nat.eqb_refl, (ltb_true _ _ Hl). reflexivity.
     + right. exact (has_thr_other _ _ _ _ _ _ _ t1 th1 Ht H Hne Hn1 Hp1).
 Qed.
+
+(* ---- the invariant ---- *)
+Definition safe (s : state) (st : nat) : Prop :=
+  closing s st \/ exists e, carries s e st /\ e_tx (ent s e) = false /\ covered s e.
+
+Record invL (s : state) : Prop := {
+  L_prog : forall t th e, nth_error (s_thr s) t = Some th -> (t_pc th = P9 e \/ t_pc th = P9w e) ->
+           cur_tx th = false -> covered s e;
+  L_stmt : forall st q, In (st, q, false) (s_prep s) -> safe s st
+}.
+
+(* an in-progress or statement-carrying pool entry that was covered stays covered, or its
+   statement is being closed *)
+Lemma covered_keep s t th c s' l e :
+  nth_error (s_thr s) t = Some th -> step_th s t th c = Some (s', l) -> invD s ->
+  s_stolen s' = false -> covered s e ->
+  e_tx (ent s e) = false -> e_err (ent s e) = false ->
+  covered s' e \/ exists st, e_stmt (ent s e) = Some st /\ closing s' st.
+Proof.
+  intros Ht H ID Hs Hc Htx Herr.
+  destruct (covered_step _ _ _ _ _ _ e Ht H ID Hs Hc) as [A|[A|[A|A]]]; auto; congruence.
+Qed.
+
+Lemma invL_step s t th c s' l :
+  nth_error (s_thr s) t = Some th -> step_th s t th c = Some (s', l) ->
+  invC s -> invD s -> stmt_noerr s -> s_stolen s' = false -> invL s -> invL s'.
+Proof.
+  intros Ht H IC ID SN Hs [LP LS].
+  pose proof ID as [DT SD _]. pose proof IC as [V _].
+  split.
+  - (* in-progress pool entries *)
+    intros t' th' e Hn' Hp' Htx'.
+    destruct (step_thr_cases _ _ _ _ _ _ _ _ Ht H Hn') as [->|[[Hne Ho]|[[e1 Hc1]|[st1 Hd1]]]].
+    + destruct (step_new_p9 _ _ _ _ _ _ _ e Ht H Hn' Hp') as [Hx [[Hp Hpx]|[Hp Hm]]].
+      * pose proof (DT _ _ Ht) as D. cbv beta in D. destruct D as [D1 [D2 [_ [_ [D5 _]]]]].
+        destruct (D1 e) as [_ [_ Dtx]]; [rewrite Hp; reflexivity|].
+        assert (Hcov : covered s e) by (eapply LP; eauto; congruence).
+        destruct (covered_keep _ _ _ _ _ _ e Ht H ID Hs Hcov) as [A|[st [A _]]]; auto.
+        -- congruence.
+        -- apply D5. rewrite Hp. reflexivity.
+        -- rewrite (D2 e) in A by (rewrite Hp; reflexivity). discriminate.
+      * left. exists (cur_q th). exact Hm.
+    + pose proof (DT _ _ Ho) as D. cbv beta in D. destruct D as [D1 [D2 [_ [_ [D5 _]]]]].
+      assert (Hown : owner_of (t_pc th') = Some e) by (destruct Hp' as [-> | ->]; reflexivity).
+      destruct (D1 e Hown) as [_ [_ Dtx]].
+      assert (Hcov : covered s e) by (eapply LP; eauto).
+      destruct (covered_keep _ _ _ _ _ _ e Ht H ID Hs Hcov) as [A|[st [A _]]]; auto.
+      * congruence.
+      * apply D5. destruct Hp' as [-> | ->]; reflexivity.
+      * rewrite (D2 e) in A by (destruct Hp' as [-> | ->]; reflexivity). discriminate.
+    + destruct Hp' as [Hp'|Hp']; rewrite Hp' in Hc1; discriminate.
+    + destruct Hp' as [Hp'|Hp']; rewrite Hp' in Hd1; discriminate.
+  - (* statements *)
+    intros st q Hi.
+    destruct (step_prep_new _ _ _ _ _ _ _ Ht H Hi) as [Hold|[e [Hp [Hx Hnew]]]].
+    + destruct (LS _ _ Hold) as [Hcl|[e [Hca [Htx Hcov]]]].
+      * left. eapply closing_step; eauto.
+      * assert (Hl : e < length (s_ents s)).
+        { destruct Hca as [Hst|[t1 [th1 [Hn1 Hp1]]]].
+          - destruct (Nat.lt_ge_cases e (length (s_ents s))) as [|Hge]; [assumption|].
+            unfold ent in Hst. rewrite nth_overflow in Hst by exact Hge. discriminate.
+          - eapply (V _ _ Hn1). destruct Hp1 as [-> | ->]; reflexivity. }
+        assert (Herr : e_err (ent s e) = false).
+        { destruct Hca as [Hst|[t1 [th1 [Hn1 Hp1]]]]; [eapply SN; eauto|].
+          pose proof (DT _ _ Hn1) as D. cbv beta in D. destruct D as [_ [_ [_ [_ [D5 _]]]]].
+          apply D5. destruct Hp1 as [-> | ->]; reflexivity. }
+        destruct (covered_keep _ _ _ _ _ _ e Ht H ID Hs Hcov Htx Herr) as [A|[st' [A1 A2]]].
+        -- right. exists e. split; [eapply carries_step; eauto|]. split; [|exact A].
+           destruct (step_eq_const _ _ _ _ _ _ H e Hl) as [_ ->]. exact Htx.
+        -- destruct Hca as [Hst|[t1 [th1 [Hn1 Hp1]]]].
+           ++ left. rewrite Hst in A1. inversion A1; subst. exact A2.
+           ++ exfalso. pose proof (DT _ _ Hn1) as D. cbv beta in D. destruct D as [_ [D2 _]].
+              rewrite (D2 e) in A1 by (destruct Hp1 as [-> | ->]; reflexivity). discriminate.
+    + (* the statement just prepared *)
+      inversion Hx; subst st q. clear Hx.
+      pose proof (DT _ _ Ht) as D. cbv beta in D. destruct D as [D1 [D2 [_ [_ [D5 _]]]]].
+      destruct (D1 e) as [_ [_ Dtx]]; [rewrite Hp; reflexivity|].
+      assert (Hl : e < length (s_ents s)) by (eapply (V _ _ Ht); rewrite Hp; reflexivity).
+      assert (Htx : cur_tx th = false) by congruence.
+      assert (Hcov : covered s e) by (eapply LP; eauto).
+      right. exists e. split; [|split].
+      * right. exists t, (set_pc th (P10 e (s_nstmt s))). split; [exact Hnew|left; reflexivity].
+      * destruct (step_eq_const _ _ _ _ _ _ H e Hl) as [_ ->]. congruence.
+      * destruct (covered_keep _ _ _ _ _ _ e Ht H ID Hs Hcov) as [A|[st [A _]]]; auto.
+        -- congruence.
+        -- apply D5. rewrite Hp. reflexivity.
+        -- rewrite (D2 e) in A by (rewrite Hp; reflexivity). discriminate.
+Qed.
